@@ -403,6 +403,119 @@ def timing_scripts(cases, ages_of, ages_global, sk, win, per_script=10):
     return [sum(rounds[i:i + per_script], []) for i in range(0, len(rounds), per_script)], len(rounds)
 
 
+# ---- composite action terms around fork / switch (post-parse passes of the parser) -----------------
+# spec/ActionTerms.tla + MC_ActionTerms.tla; layout: a b c = the keys tested by the fork triggers / switch
+# conditions at nesting level 0 1 2, d carries the term, e the second key of the first chord group
+TERM_KEYS = ["1", "2", "3", "4", "5", "6", "7", "8"]          # key leaf i
+TERM_OUTS = ["m", "n", "o", "p", "q", "r", "s", "t"]          # output of the chord of placeholder leaf i
+TERM_WIN = 60
+TERM_CFG = """CONSTANT Depth = %(depth)d
+CONSTANT TMode = "%(tmode)s"
+CONSTANT KeyCodes <- KeyCodesDef
+CONSTANT OutCodes <- OutCodesDef
+CONSTANT TrigKeys <- TrigKeysDef
+CONSTANT Lay <- LayDef
+INIT Init
+NEXT Next
+INVARIANT Probe
+CHECK_DEADLOCK FALSE
+"""
+
+
+def term_lay():
+    c = cfgdesc.code
+    return {"sk": c("d"), "ck": c("e"), "q1": c("9"), "q2": c("0")}
+
+
+def terms_job(wd, name, depth, tmode, workers, timeout, heap="2g"):
+    c = cfgdesc.code
+    mod = "MC_C10_" + name
+    with open(os.path.join(wd, mod + ".tla"), "w") as f:
+        f.write("---- MODULE %s ----\nEXTENDS MC_ActionTerms\nKeyCodesDef == %s\nOutCodesDef == %s\nTrigKeysDef == %s\n"
+                "LayDef == %s\n====\n" % (mod, tla_val([c(k) for k in TERM_KEYS]), tla_val([c(k) for k in TERM_OUTS]),
+                                         tla_val([c("a"), c("b"), c("c")]), tla_val(term_lay())))
+    with open(os.path.join(wd, mod + ".cfg"), "w") as f:
+        f.write(TERM_CFG % dict(depth=depth, tmode=tmode))
+    r = run_tlc(wd, mod, workers=workers, timeout=timeout, heap=heap)
+    if r["rc"] == 124:
+        raise ToolError("TLC timed out on %s" % mod)
+    if r["rc"] != 0 or r["error"] or not r["finished"]:
+        raise ToolError("TLC failed on %s: %s (see %s)" % (mod, r["error"], r["out"]))
+    cases = os.path.join(wd, mod + ".terms.ndjson")
+    n = extract_prints(r["out"], "ATERM", cases)
+    return {"name": name, "mode": "terms", "states": r["distinct"], "generated": r["generated"], "lines": n,
+            "cases": cases, "envs": None, "wall_s": round(r["wall_s"], 1), "variant": "%s/%d" % (tmode, depth)}
+
+
+_NAME_OF = {}
+
+
+def key_name(code_):
+    if not _NAME_OF:
+        for n in TERM_KEYS + TERM_OUTS + ["a", "b", "c", "d", "e", "9", "0"]:
+            _NAME_OF[cfgdesc.code(n)] = n
+    return _NAME_OF[code_]
+
+
+def term_text(t):
+    f = t["f"]
+    if f == "key":
+        return key_name(t["kc"])
+    if f == "chord":
+        return "(chord g%d p)" % t["g"]
+    if f == "multi":
+        return "(multi %s %s)" % (term_text(t["a"]), term_text(t["b"]))
+    if f == "taphold":
+        return "(tap-hold 10 10 %s %s)" % (term_text(t["a"]), term_text(t["b"]))
+    if f == "tapdance":
+        return "(tap-dance 10 (%s %s))" % (term_text(t["a"]), term_text(t["b"]))
+    if f == "fork":
+        return "(fork %s %s (%s))" % (term_text(t["a"]), term_text(t["b"]), " ".join(key_name(k) for k in t["trig"]))
+    if f == "switch":
+        return "(switch %s)" % " ".join("(%s) %s %s" % (" ".join(key_name(e["kc"]) for e in cs["cond"]), term_text(cs["a"]),
+                                                       "break" if cs["brk"] else "fallthrough") for cs in t["cases"])
+    raise ToolError("unknown term form %r" % f)
+
+
+def term_chords(t):
+    f = t["f"]
+    if f == "key":
+        return []
+    if f == "chord":
+        return [t]
+    if f == "switch":
+        return sum((term_chords(cs["a"]) for cs in t["cases"]), [])
+    return term_chords(t["a"]) + term_chords(t["b"])
+
+
+def term_cfg(t):
+    """The configuration text of a term of ActionTerms.tla (the text-level description; the agreement with the
+    TLA+ record is itself checked: the parser's tree must equal Final(term))."""
+    groups, ekey = [], "e"
+    for ch in term_chords(t):
+        if ch["two"]:
+            groups.append("(defchords g%d %d (p) %s (q) 9 (p q) 0)" % (ch["g"], 10 + ch["g"], key_name(ch["out"])))
+            ekey = "(chord g%d q)" % ch["g"]
+        else:
+            groups.append("(defchords g%d %d (p) %s)" % (ch["g"], 10 + ch["g"], key_name(ch["out"])))
+    return "(defsrc a b c d e)\n(deflayer l0 a b c %s %s)\n%s" % (term_text(t), ekey, "".join(g + "\n" for g in groups))
+
+
+def term_script(rng, win):
+    """the term's key pressed and held through the window in the four trigger environments"""
+    a, b, sk = cfgdesc.code("a"), cfgdesc.code("b"), cfgdesc.code("d")
+    envs = [[], [a], [b], [a, b]]
+    rng.shuffle(envs)
+    s = []
+    for ks in envs:
+        for k in ks:
+            s += [["d", k], ["t", 3]]
+        s += [["d", sk], ["t", win + 3], ["u", sk], ["t", 5]]
+        for k in ks:
+            s += [["u", k], ["t", 3]]
+    return s
+
+
 def e2e_script(rng, others, sk, win, n_rounds):
     gaps = [3, 4, 10, 17, 18, 19, 20, 21, 22, 30, 47, 48, 49, 50, 51, 52, 60]
     s, down = [], set()
@@ -426,6 +539,27 @@ def e2e_script(rng, others, sk, win, n_rounds):
     return s
 
 
+def strip_ops(tree):
+    if isinstance(tree, dict):
+        return {k: strip_ops(v) for k, v in tree.items() if k != "ops"}
+    if isinstance(tree, list):
+        return [strip_ops(v) for v in tree]
+    return tree
+
+
+def tree_diff(exp, act, path=""):
+    """first differing position of two action trees: (path, written, parser's)"""
+    if isinstance(exp, dict) and isinstance(act, dict) and exp.get("t") == act.get("t"):
+        for k in sorted(set(exp) | set(act)):
+            if exp.get(k) != act.get(k):
+                return tree_diff(exp.get(k), act.get(k), path + "/" + k)
+    if isinstance(exp, list) and isinstance(act, list) and len(exp) == len(act):
+        for i, (a, b) in enumerate(zip(exp, act)):
+            if a != b:
+                return tree_diff(a, b, "%s[%d]" % (path, i))
+    return {"at": path or "/", "written": exp, "parser": act}
+
+
 def replay(r, path, wd):
     """./check replay for kind switch-tv: the recorded configuration text goes through the real parser and
     the real Switch::actions again, in the recorded environments; exit 1 if the firing actions still
@@ -439,16 +573,19 @@ def replay(r, path, wd):
             print("env %d: %s  documented firing actions: %s" % (i, json.dumps(e), chk["den"][i]))
     for m in tv["val_mismatch"]:
         print("DISAGREES check %s env %d: documented %s, real code %s" % (m["id"], m["env"], m["expected"], m["real"]))
+    tree_bad = [m for m in tv.get("tree_mismatch", []) if strip_ops(m["expected"]) != strip_ops(m["actual"])]
+    for m in tree_bad:
+        print("the parser's final action tree is not the one written: %s" % json.dumps(tree_diff(m["expected"], m["actual"])))
     for m in tv["panics"]:
         print("PANIC %s" % json.dumps(m))
     for m in tv["ops_mismatch"]:
         print("opcode drift (not a violation by itself): %s" % json.dumps(m)[:600])
     if tv["n_parse_errors"]:
         print("the configuration is rejected by the parser now: %s" % json.dumps(tv["parse_errors"])[:800])
-    if tv["val_mismatch"] or tv["panics"]:
+    if tv["val_mismatch"] or tv["panics"] or tree_bad:
         print("VIOLATION property=%s replay=%s" % (r["property"], path))
         return 1
-    print("real code agrees with the documented meaning in %d evaluations" % tv["evals"])
+    print("real code agrees with the documented meaning in %d evaluations, %d action trees" % (tv["evals"], tv.get("trees", 0)))
     return 0
 
 
@@ -474,14 +611,17 @@ def run(tier, seed):
         plan = [lambda: tlc_job(wd, "exprA", "expr", max(2, W - 7), 600, maxnodes=5, triples=(1, 2, 3, 4, 5, 6), heap="6g"),
                 lambda: tlc_job(wd, "cases", "cases", 2, 600, maxcases=8, maxfull=6, pooln=2),
                 lambda: tlc_job(wd, "thr", "thr", 3, 600, thr=(0, 65535)),
-                lambda: tlc_job(wd, "given", "given", 2, 600, given=[g[0] for g in given], envs=genvs), ages_job]
+                lambda: tlc_job(wd, "given", "given", 2, 600, given=[g[0] for g in given], envs=genvs), ages_job,
+                lambda: terms_job(wd, "terms1", 1, "full", 1, 600)]
         plan2 = []
     else:
         plan = [lambda: tlc_job(wd, "exprA", "expr", max(2, W - 8), 3000, maxnodes=6, triples=(1, 2, 3, 4, 5, 6), heap="8g"),
                 lambda: tlc_job(wd, "cases", "cases", 2, 1200, maxcases=8, maxfull=8, pooln=2),
                 lambda: tlc_job(wd, "cases4", "cases", 2, 1200, maxcases=5, maxfull=5, pooln=4),
                 lambda: tlc_job(wd, "thr", "thr", 2, 1200, thr=(0, 65535)),
-                lambda: tlc_job(wd, "given", "given", 2, 3000, given=[g[0] for g in given], envs=genvs, heap="6g"), ages_job]
+                lambda: tlc_job(wd, "given", "given", 2, 3000, given=[g[0] for g in given], envs=genvs, heap="6g"), ages_job,
+                lambda: terms_job(wd, "terms1", 1, "full", 1, 600),
+                lambda: terms_job(wd, "terms2", 2, "side", 2, 1800, heap="4g")]
         plan2 = [lambda: tlc_job(wd, "exprB", "expr", max(2, W - 4), 6000, maxnodes=7, triples=(3, 1), heap="8g"),
                  lambda: tlc_job(wd, "exprFixed", "expr", 2, 3000, variant="fixed", maxnodes=6, triples=(3,))]
     tl = run_parallel(plan)
@@ -621,6 +761,26 @@ def run(tier, seed):
                          "checks": [{"id": iid, "lo": 0, "hi": 1, "ops": [c["ops"]], "envs": genvs, "den": bits_den(c["den"], code_x)}]})
         if n_given != len(given):
             raise ToolError("TLC evaluated %d of %d random conditions" % (n_given, len(given)))
+    # composite action terms around fork / switch: the parser's final tree against Final(term); terms the
+    # language does not admit must be refused
+    terms, n_terms, n_term_reject = {}, 0, 0
+    for t in tl:
+        if t["mode"] != "terms":
+            continue
+        for line in open(t["cases"]):
+            x = json.loads(line)
+            iid = "a:" + x["s"]
+            if iid in terms:
+                continue
+            n_terms += 1
+            cfg = term_cfg(x["term"])
+            terms[iid] = {"cfg": cfg, "term": x["term"], "e2e": x["e2e"], "acs": sorted(x["acs"]), "chord": x["chord"],
+                          "depth2": t["name"] != "terms1"}
+            if x["acc"]:
+                jobs.append({"id": iid, "cfg": cfg, "key": sw_key, "checks": [], "tree": x["final"]})
+            else:
+                n_term_reject += 1
+                jobs.append({"id": iid, "cfg": cfg, "key": sw_key, "checks": [], "expect_reject": True})
     # beyond the documented limits the parser must refuse (not crash, not mis-evaluate)
     deep9 = "(or " * 8 + "a" + ")" * 8
     long_ = "(or %s)" % " ".join(["x"] * 4095)
@@ -669,10 +829,23 @@ def run(tier, seed):
         violations.append({"id": p.get("id"), "panic": p,
                            "job": {"id": 0, "cfg": j["cfg"], "key": j["key"], "envtab": j.get("envtab", {}),
                                    "checks": [c for c in j["checks"] if c["id"] == p.get("id")]} if j else None})
+    # the final action trees: a difference only in a switch's opcodes is opcode drift (judged through the
+    # evaluations above); any other difference means the fork / switch handed to the run time is not the one written
+    tree_ops_drift, n_tree_viol = 0, 0
+    for m in sorted(tv["tree_mismatch"], key=lambda m: (len(m["id"]), m["id"])):
+        if strip_ops(m["expected"]) == strip_ops(m["actual"]):
+            tree_ops_drift += 1
+            continue
+        n_tree_viol += 1
+        if n_tree_viol > 8:       # (replay files for the simplest ones; all are counted in the evidence)
+            continue
+        tm = terms[m["id"]]
+        violations.append({"id": m["id"], "tree_mismatch": {"written": term_text(tm["term"]), "diff": tree_diff(m["expected"], m["actual"])},
+                           "job": {"id": m["id"], "cfg": tm["cfg"], "key": sw_key, "checks": [], "tree": m["expected"]}})
     # binding D bookkeeping: programs where the evaluator model leaves the documented meaning must be
     # exactly the ones where the real code does (otherwise the model drifted from the code)
     model_only = [i for i, it in items.items() if it.get("fix") and i not in mism_ids]
-    drift_ops = tv["n_ops_mismatch"]
+    drift_ops = tv["n_ops_mismatch"] + tree_ops_drift
 
     # ---- 4. end to end through the stepper: switch and fork, judged by P_C10 -------------------------
     fam = e2e_family()
@@ -698,6 +871,14 @@ def run(tier, seed):
         scripts, nr = timing_scripts(cases, ages_of, ages_global, params["sk"], params["win"])
         n_long_rounds += nr
         e2e_jobs.append({"cfg": kbd, "params": params, "tag": name, "scripts": scripts})
+    # composite action terms: the term's key held through the window in the four trigger environments
+    term_e2e = [(iid, tm) for iid, tm in sorted(terms.items()) if tm["e2e"] and not tm["depth2"]]
+    deep = [(iid, tm) for iid, tm in sorted(terms.items()) if tm["e2e"] and tm["depth2"]]
+    term_e2e += rng.sample(deep, min(len(deep), 3000))
+    for iid, tm in term_e2e:
+        params = {"kind": "term", "sk": sw_key, "win": TERM_WIN, "ageoff": 0, "cases": [], "trig": [], "left": 0, "right": 0,
+                  "acs": tm["acs"], "lk": 0, "ll": 0, "term": tm["term"]}
+        e2e_jobs.append({"cfg": tm["cfg"], "params": params, "tag": "term:" + iid[2:], "scripts": [term_script(rng, TERM_WIN)]})
     e2e_jobs = shard_local_index(e2e_jobs)
     outs = run_jobs(e2e_jobs, wd, "c10_e2e")
     trace = concat_traces(outs, os.path.join(wd, "c10_e2e.trace.ndjson"))
@@ -744,19 +925,24 @@ def run(tier, seed):
     for p in paths:
         print("VIOLATION property=%s replay=%s" % (PID, p))
         rc = 1
-    programs = n_expr + n_lists + 2 * n_thr + n_given
+    programs = n_expr + n_lists + 2 * n_thr + n_given + n_terms
     samples = prog_samples[:3]
     samples += [{"condition": it["text"], "documented_truth_per_env": it["den"], "evaluator_model": it["run"]}
                 for it in list(items.values())[:1]]
     samples.append({"case_list_job": next((j["cfg"] for j in jobs if "envtab" in j and "c" in j["envtab"]), "")[:400]})
     samples.append({"e2e_script": e2e_jobs[0]["scripts"][0][:24], "cfg": e2e_jobs[0]["cfg"]})
+    if term_e2e:
+        iid, tm = term_e2e[len(term_e2e) // 2]
+        samples.append({"action_term": term_text(tm["term"]), "cfg": tm["cfg"], "held_through_window_in_envs": "{} {a} {b} {a,b}"})
     cov = {
         "programs": programs,
-        "disagreements_checked": len(mism_ids) + drift_ops + len(tv["panics"]) + len(errs),
+        "disagreements_checked": len(mism_ids) + drift_ops + len(tv["panics"]) + len(errs) + tv["n_tree_mismatch"],
         "samples": samples,
         "exhaustive": True,
         "condition_shapes": n_expr, "case_lists": n_lists, "thresholds": n_thr, "random_conditions": n_given,
         "random_stats": given_stats,
+        "action_terms": n_terms, "action_trees_compared": tv["trees"], "action_terms_refused_as_documented": n_term_reject,
+        "action_tree_mismatches": tv["n_tree_mismatch"] - tree_ops_drift, "action_terms_end_to_end": len(term_e2e),
         "evaluations_on_real_code": tv["evals"], "opcode_lists_compared": tv["ops_compared"],
         "opcode_drift": drift_ops, "opcode_drift_samples": tv["ops_mismatch"][:3],
         "value_disagreements": len(mism_ids), "explained_by_known_finding": explained,
@@ -768,7 +954,7 @@ def run(tier, seed):
         "states": sum(t["states"] or 0 for t in tl), "transitions": sum(t["generated"] or 0 for t in tl),
         "tlc_runs": [{k: t[k] for k in ("name", "mode", "variant", "states", "lines", "wall_s")} for t in tl],
         "proposed_fix_model": fixed_run,
-        "e2e": {"configs": len(fam) + len(tfam), "scripts": len(e2e_jobs), "switch_or_fork_presses_judged": n_press,
+        "e2e": {"configs": len(fam) + len(tfam) + len(term_e2e), "scripts": len(e2e_jobs), "switch_or_fork_presses_judged": n_press,
                 "key_timing_long_gap_rounds": n_long_rounds,
                 "key_timing_long_gap_ages": {"per_threshold": {str(k): v for k, v in sorted(ages_of.items())}, "global": ages_global},
                 "trace_lines": nlines, "rejected": len(errs), "rejected_known": e2e_known},
@@ -780,7 +966,14 @@ def run(tier, seed):
                 "8 cases x 4 environments; every key-timing threshold 0..65535 (lt and gt) at the ages around the documented "
                 "resolution boundary; random conditions up to depth 8 and 4095 opcodes in random environments. Each is "
                 "rendered as config text, parsed by the real parser (opcodes compared with Compile) and evaluated by the "
-                "real Switch::actions; the firing actions must equal Denote/DenoteCases.",
+                "real Switch::actions; the firing actions must equal Denote/DenoteCases. Composite action terms "
+                "(ActionTerms.tla): every fork / switch (break and fallthrough) whose two branches are a key, a v1 chord "
+                "placeholder or one of multi / tap-hold / tap-dance / fork / switch over those (thorough: one branch of depth 2); "
+                "the parser's final action tree after the post-parse passes must equal Final(term) (chord groups resolved, "
+                "nothing else changed), terms outside the language must be refused, and the term's key held through a "
+                "quiet window in the four trigger environments must press HeldOut(term, state) (judged by P_C10). "
+                "Key-timing end to end: every threshold of the tlong families at the TLC-enumerated ages (resolution "
+                "boundary, +65536, +131072, saturation point) reached by silent gaps of up to 196608 ticks.",
     }
     write_evidence(PID, tier, seed, "translation_validation", cov, time.time() - t0, violations=len(paths),
                    assumptions=["key-timing boundary convention: lt <=> age <= Q(t), gt <=> age > Q(t), Q = documented resolution "
@@ -789,5 +982,10 @@ def run(tier, seed):
                                 "end-to-end samples use quiescent scripts (nothing else happens in the %d ticks after the "
                                 "switch key); age offset 1 tick between the monitor's clock and the evaluation" % 14,
                                 "environment passed to Switch::actions is arbitrary (not restricted to states reachable "
-                                "through the layout)"])
+                                "through the layout)",
+                                "ages saturate at 65535 ticks (documented); the stepper ticks every millisecond of a silent gap",
+                                "action terms: the order between the actions of a switch and later actions of the same press "
+                                "(fallthrough / multi) is not fixed by the statement (such terms are compared as trees only); a "
+                                "chord in the hold position of a tap-hold is compared as a tree only (tap-hold's timeout action "
+                                "is not part of the compared tree)"])
     return rc
